@@ -50,13 +50,26 @@ def world_head(wd, res, eps_hex, prefix):
         prefix, cstr(wd["domain_text"]), prefix, nums, prefix, chex(float.fromhex(eps_hex)), prefix, objs)
 
 
+def seq_literal(wd, sq, r):
+    steps = []
+    for st, o in zip(sq["steps"], r["steps"]):
+        src = "SPrev" if st["src"] is None else "(SFrom %s)" % cstate(wd["states"][st["src"]])
+        late = "(Some %s)" % cobs_state(o["late"]) if "late" in o else "None"
+        steps.append("{| ss_src := %s; ss_allow := %s; ss_succ := %s; ss_valerr := %s; ss_late := %s |}" % (
+            src, cbool(st["allow"]), cobs_state(o.get("succ")), cbool(o.get("valerr")), late))
+    return ("{| sq_action := %s; sq_args := %s; sq_start := %s; sq_order := %s; sq_uorder := %s; sq_steps := %s |}" % (
+        cstr(sq["action"]), clist([cstr(a) for a in sq["args"]]), cstate(wd["states"][sq["start"]]),
+        nats(r.get("order", [])), nats(r.get("uorder", [])), clist(steps)))
+
+
 def full_literal(wd, res, eps_hex, only=None):
     probes = []
     for i, (pr, r) in enumerate(zip(wd["probes"], res["probes"])):
         if only is not None and i != only:
             continue
         probes.append(probe_literal(pr, wd["states"][pr["state"]], r))
-    return "WFull {| %s; v_probes := %s |}" % (world_head(wd, res, eps_hex, "v"), clist(probes))
+    seqs = [seq_literal(wd, sq, r) for sq, r in zip(wd.get("seqs", []), res.get("seqs", []))]
+    return "WFull {| %s; v_probes := %s; v_seqs := %s |}" % (world_head(wd, res, eps_hex, "v"), clist(probes), clist(seqs))
 
 
 def compact_state(wd, st):
@@ -92,14 +105,26 @@ def compact_literal(wd, res, eps_hex):
                       "xp_succ := %s; xp_valerr := %s; xp_forced := %s |}" % (
                           pr["call"], pr["state"], cbool(r.get("obs_order")), nats(r.get("order", [])),
                           nats(r.get("uorder", [])), cobs_bool(r.get("app")), s1, cbool(r.get("valerr")), s2))
+    seqs = []
+    for sq, r in zip(wd.get("seqs", []), res.get("seqs", [])):
+        steps = []
+        for st, o in zip(sq["steps"], r["steps"]):
+            s1 = cobs_cstate(wd, o.get("succ"))
+            late = "(Some %s)" % cobs_cstate(wd, o["late"]) if "late" in o else "None"
+            if s1 is None or "None)" in late:
+                return None
+            steps.append("{| xt_src := %s; xt_allow := %s; xt_succ := %s; xt_valerr := %s; xt_late := %s |}" % (
+                "None" if st["src"] is None else "(Some %d)" % st["src"], cbool(st["allow"]), s1, cbool(o.get("valerr")), late))
+        seqs.append("{| xq_call := %d; xq_start := %d; xq_order := %s; xq_uorder := %s; xq_steps := %s |}" % (
+            sq["call"], sq["start"], nats(r.get("order", [])), nats(r.get("uorder", [])), clist(steps)))
     states = [compact_state(wd, st) for st in wd["states"]]
     if any(s is None for s in states):
         return None
     atoms = clist([catom(p, list(a)) for p, a in wd["atom_list"]])
     fkeys = clist([catom(f, list(a)) for f, a in wd["fkey_list"]])
     calls = clist(["(%s, %s)" % (cstr(a), clist([cstr(x) for x in args])) for a, args in wd["calls"]])
-    return "WCompact {| %s; x_atoms := %s; x_fkeys := %s; x_states := %s; x_calls := %s; x_probes := %s |}" % (
-        world_head(wd, res, eps_hex, "x"), atoms, fkeys, clist(states), calls, clist(probes))
+    return "WCompact {| %s; x_atoms := %s; x_fkeys := %s; x_states := %s; x_calls := %s; x_probes := %s; x_seqs := %s |}" % (
+        world_head(wd, res, eps_hex, "x"), atoms, fkeys, clist(states), calls, clist(probes), clist(seqs))
 
 
 # ------------------------------------------------------------------------------------------------ generation
@@ -139,7 +164,49 @@ def perm_choices(rng, ngroups, nuniv, tier):
     return [None] + ks
 
 
-def build_world(rng, w, tier, n_states, calls_per_action, name="dom", noise=True, stream="random"):
+def seq_steps(rng, n_states, kind, k):
+    """chain: every call gets the state the previous call returned; spread: fresh unrelated states in turn; mixed: both"""
+    steps = []
+    for i in range(k):
+        if kind == "chain":
+            src = None
+        elif kind == "spread":
+            src = rng.randrange(n_states)
+        else:
+            src = None if rng.random() < 0.6 else rng.randrange(n_states)
+        steps.append({"src": src, "allow": rng.random() < 0.65})
+    if kind == "chain" and rng.random() < 0.5:
+        steps[0]["allow"] = steps[1]["allow"] = True        # at least two executed calls in a row
+    return steps
+
+
+def action_shape(a):
+    nwhen, nuniv = count_groups(a)
+    return {"nwhen": nwhen, "nuniv": nuniv,
+            "numeric": sum(1 for x in flatten(a["eff"]) if x in ("assign", "increase", "decrease"))}
+
+
+def build_seqs(rng, w, objs, n_states, tier, calls_per_action=2, only=None):
+    """call sequences on ONE Operator object per (action, call)"""
+    seqs = []
+    for a in w.actions:
+        if only is not None and a["name"] not in only:
+            continue
+        nwhen, nuniv = count_groups(a)
+        for args in G.calls_for(rng, w, objs, a, limit=calls_per_action):
+            for kind in ("chain", rng.choice(["spread", "mixed"])):
+                ks = perm_choices(rng, 1 + nwhen, nuniv, "quick")
+                k = rng.choice(ks)
+                seqs.append({"action": a["name"], "args": args, "start": rng.randrange(n_states), "perm": k,
+                             "uperm": None if k is None else rng.randrange(max(1, n_perms(nuniv))),
+                             "inner_seed": 0 if k is None else rng.randint(1, 10 ** 6), "kind": kind,
+                             "steps": seq_steps(rng, n_states, kind, rng.choice([3, 4] if kind == "chain" else [3, 4, 5])),
+                             "d40_class": d40_class(a["eff"]), "shape": action_shape(a)})
+    return seqs
+
+
+def build_world(rng, w, tier, n_states, calls_per_action, name="dom", noise=True, stream="random", seq_only=None,
+                seq_calls=2):
     objs = G.gen_objects(rng, w)
     text = G.render(w.domain_tree(name), rng, noise)
     states, ptexts, probes = [], [], []
@@ -158,6 +225,7 @@ def build_world(rng, w, tier, n_states, calls_per_action, name="dom", noise=True
                                    "shape": {"nwhen": nwhen, "nuniv": nuniv,
                                              "numeric": sum(1 for x in flatten(a["eff"]) if x in ("assign", "increase", "decrease"))}})
     return {"domain_text": text, "objects": objs, "states": states, "problem_texts": ptexts, "probes": probes,
+            "seqs": build_seqs(rng, w, objs, n_states, tier, calls_per_action=seq_calls, only=seq_only),
             "stream": stream, "features": sorted(w.features), "witness_of": None, "compact": False}
 
 
@@ -250,6 +318,97 @@ def plant_inconsistent(rng, w):
     return True
 
 
+def plant_read_write(rng, w):
+    """an action whose conditional / universal effects READ (in a condition or on a right-hand side) a fluent that the
+    unconditional group of the same action WRITES, and the other way round; every group writes its own function, so the
+    firing groups are consistent in every state.  With a constant of the quantified type in half of the cases (D30)."""
+    ts = w.all_types()
+    ty = rng.choice(ts)                                  # the type the universal effect ranges over
+    px = rng.choice(ts)
+    subs = [t for t in ts if w.is_sub(t, ty)]
+    if rng.random() < 0.5:
+        w.consts.append(("k%d" % len(w.consts), rng.choice(subs)))
+        w.features.add("const-of-quantified-type")
+    unary = rng.random() < 0.5
+    w.funcs.append(("rf", [("?a0", px)] if unary else []))
+    w.funcs.append(("rg", []))
+    w.funcs.append(("rh", [("?a0", ty)]))
+    params = [("?x0", px)] if unary or rng.random() < 0.4 else []
+    if rng.random() < 0.3:
+        params.append(("?x%d" % len(params), rng.choice(ts)))
+    fterm = "?x0"
+    if unary:
+        cs = [c for c, t in w.consts if w.is_sub(t, px)]
+        if cs and rng.random() < 0.25:
+            fterm = rng.choice(cs)
+    F = ["rf", fterm] if unary else ["rf"]
+    Gf = ["rg"]
+    H = ["rh", "?u"]
+
+    def num():
+        return rng.choice(["1", "2", "0.5", "3", "1.5"])
+
+    def cmp_op():
+        return rng.choice(["<", "<=", ">", ">="])
+
+    def reads_f(others):
+        r = rng.random()
+        if r < 0.35:
+            return copy_tree(F)
+        if r < 0.6:
+            return [rng.choice(["+", "-", "*"]), copy_tree(F), num()]
+        if r < 0.8 and others:
+            return [rng.choice(["+", "-"]), copy_tree(F), copy_tree(rng.choice(others))]
+        return [rng.choice(["+", "-"]), num(), copy_tree(F)]
+    items = []
+    r = rng.random()
+    rhs0 = num() if r < 0.4 else reads_f([Gf]) if r < 0.7 else copy_tree(Gf) if r < 0.85 else ["+", copy_tree(Gf), num()]
+    items.append([rng.choice(["increase", "increase", "decrease", "assign"]), copy_tree(F), rhs0])
+    lit = G.gen_atom(rng, w, list(params))
+    if lit is not None and rng.random() < 0.4:
+        items.append(lit if rng.random() < 0.5 else ["not", lit])
+    shape = rng.choice(["when", "forall", "forall", "both", "both"])
+    if shape in ("when", "both"):
+        cond = [cmp_op(), copy_tree(F), num()] if rng.random() < 0.6 else [cmp_op(), copy_tree(F), copy_tree(Gf)]
+        if rng.random() < 0.25:
+            cond = ["forall", ["?w", "-", ty], ["and", [cmp_op(), ["rh", "?w"], copy_tree(F)]]]
+            w.features.add("when-forall")
+        if rng.random() < 0.3:
+            cond = ["and", cond]
+        res = [rng.choice(["assign", "increase", "decrease"]), copy_tree(Gf), reads_f([])]
+        items.append(["when", cond, res if rng.random() < 0.6 else ["and", res]])
+        w.features.add("when")
+    if shape in ("forall", "both"):
+        scope = list(params) + [("?u", ty)]
+        r = rng.random()
+        if r < 0.35:
+            cond = [cmp_op(), copy_tree(F), copy_tree(H)]
+        elif r < 0.6:
+            cond = [cmp_op(), copy_tree(F), num()]
+        else:
+            cond = None
+            for _ in range(6):
+                a = G.gen_atom(rng, w, scope)
+                if a is not None and "?u" in a:
+                    cond = a if rng.random() < 0.7 else ["not", a]
+                    break
+            if cond is None:
+                cond = [cmp_op(), copy_tree(H), num()]
+        if rng.random() < 0.3:
+            cond = ["and", cond]
+        res = [rng.choice(["assign", "assign", "increase", "decrease"]), copy_tree(H), reads_f([H])]
+        items.append(["forall", ["?u", "-", ty], ["when", cond, res if rng.random() < 0.6 else ["and", res]]])
+        w.features.add("forall-when")
+    rng.shuffle(items)
+    r = rng.random()
+    pre = ["and"] if r < 0.5 else ["and", [rng.choice(["<=", "<"]), copy_tree(F), rng.choice(["3", "4", "10"])]] if r < 0.8 \
+        else ["and", [rng.choice([">=", ">"]), copy_tree(F), rng.choice(["1", "2"])]]
+    name = "rw%d" % len(w.actions)
+    w.actions.append({"name": name, "params": params, "group": False, "pre": pre, "eff": ["and"] + items})
+    w.features.add("read-write")
+    return name
+
+
 # ----- the small scope: one action over {p/1, q/0, f/1, h/0}, types u < t, objects o0 - t, o1 - u
 XS_PRIMS = [["p", "?x"], ["not", ["p", "?x"]], ["q"], ["not", ["q"]], ["increase", ["h"], "1"],
             ["assign", ["h"], ["f", "?x"]], ["decrease", ["f", "?x"], ["h"]]]
@@ -313,7 +472,24 @@ def xs_world(rng, body, tier):
                                "inner_seed": 0 if k is None else 1 + si, "klass": None,
                                "shape": {"nwhen": nwhen, "nuniv": nuniv,
                                          "numeric": sum(1 for x in flatten(eff) if x in ("assign", "increase", "decrease"))}})
-    return {"domain_text": text, "objects": XS_OBJS, "states": states, "problem_texts": ptexts, "probes": probes,
+    # call sequences on one Operator object: from every state a chain of three calls, and per call one Operator
+    # applied to all 16 states in turn
+    shape = {"nwhen": nwhen, "nuniv": nuniv,
+             "numeric": sum(1 for x in flatten(eff) if x in ("assign", "increase", "decrease"))}
+    total = n_perms(1 + nwhen)
+    seqs = []
+    for si in range(len(states)):
+        ci = si % 2
+        k = None if (si // 2) % 2 == 0 or (total == 1 and nuniv <= 1) else (si + ci) % max(total, 2)
+        seqs.append({"action": calls[ci][0], "args": calls[ci][1], "call": ci, "start": si, "perm": k,
+                     "uperm": None if k is None else (si // 2) % max(1, n_perms(nuniv)), "inner_seed": 0 if k is None else 1 + si,
+                     "kind": "chain", "steps": [{"src": None, "allow": bool((si >> j) & 1)} for j in range(3)], "shape": shape})
+    for ci, (an, cargs) in enumerate(calls):
+        order = list(range(len(states)))
+        rng.shuffle(order)
+        seqs.append({"action": an, "args": cargs, "call": ci, "start": order[0], "perm": None, "uperm": None, "inner_seed": 0,
+                     "kind": "spread", "steps": [{"src": j, "allow": bool(j & 1)} for j in order], "shape": shape})
+    return {"domain_text": text, "objects": XS_OBJS, "states": states, "problem_texts": ptexts, "probes": probes, "seqs": seqs,
             "stream": "small-scope", "features": ["xs"], "witness_of": None, "compact": True, "calls": calls,
             "atom_list": XS_ATOMS, "atom_index": {k: i for i, k in enumerate(XS_ATOMS)}, "fkey_list": XS_FKEYS}
 
@@ -404,6 +580,10 @@ def generate(rng, tier):
     for _ in range(n):
         w = G.gen_world(rng, max_actions=2)
         worlds.append(build_world(rng, w, tier, n_states=2, calls_per_action=3))
+    for _ in range(n // 2):
+        w = G.gen_world(rng, max_actions=1)
+        name = plant_read_write(rng, w)
+        worlds.append(build_world(rng, w, tier, n_states=2, calls_per_action=2, stream="read-write", seq_only=[name], seq_calls=3))
     k = 0
     while k < n // 4:
         w = G.gen_world(rng, max_actions=2)
@@ -450,7 +630,8 @@ def generate(rng, tier):
 # ------------------------------------------------------------------------------------------------ the check
 def run_worlds(worlds, hashseed):
     jobs = [{"op": "c03.world", "domain_text": wd["domain_text"], "states": wd["problem_texts"],
-             "probes": [{k: p[k] for k in ("action", "args", "state", "perm", "uperm", "inner_seed")} for p in wd["probes"]]}
+             "probes": [{k: p[k] for k in ("action", "args", "state", "perm", "uperm", "inner_seed")} for p in wd["probes"]],
+             "seqs": [{k: q[k] for k in ("action", "args", "start", "perm", "uperm", "inner_seed", "steps")} for q in wd.get("seqs", [])]}
             for wd in worlds]
     return run_impl(jobs, hashseed=hashseed)
 
@@ -478,7 +659,14 @@ def run(args):
              "probes_with_forall_when_fired": 0, "probes_with_forall_when_not_fired": 0,
              "forall_when_instances_fired": 0, "forall_when_instances_not_fired": 0,
              "probes_with_numeric_applied": 0, "numeric_effects_applied": 0, "discrete_effects_applied": 0,
-             "d40_class_probes": 0, "void_probes_problem_not_read": 0, "features": {}, "compact_worlds": 0, "compact_fallback_full": 0}
+             "d40_class_probes": 0, "void_probes_problem_not_read": 0, "features": {}, "compact_worlds": 0, "compact_fallback_full": 0,
+             "void_seqs_problem_not_read": 0,
+             "sequences": {"total": 0, "by_kind": {}, "by_stream": {}, "calls": 0, "calls_returned": 0, "calls_refused_valueerror": 0,
+                           "calls_raised_other": 0, "calls_on_previous_result": 0, "calls_on_fresh_state": 0,
+                           "executed_after_an_executed_call_of_the_same_operator": 0, "refused_then_allowed": 0,
+                           "calls_with_numeric_applied": 0, "calls_with_conditional_or_universal_evaluated": 0,
+                           "sequences_with_2+_executed_numeric_calls": 0, "sequences_forced_order": 0,
+                           "returned_state_changed_afterwards": 0, "length": {}}}
     orders_seen = set()
     base_worlds = worlds
     for hs in hashseeds:
@@ -497,6 +685,11 @@ def run(args):
                     stats["void_probes_problem_not_read"] += len(res["probes"]) - len(ok)
                     wd["probes"] = [wd["probes"][i] for i in ok]
                     res["probes"] = [res["probes"][i] for i in ok]
+                if "seqs" in res and any("problem_raised" in r for r in res["seqs"]):
+                    ok = [i for i, r in enumerate(res["seqs"]) if "problem_raised" not in r]
+                    stats["void_seqs_problem_not_read"] += len(res["seqs"]) - len(ok)
+                    wd["seqs"] = [wd["seqs"][i] for i in ok]
+                    res["seqs"] = [res["seqs"][i] for i in ok]
             lits, units, keep = [], [], []
             for wi, (wd, res) in enumerate(zip(worlds, results)):
                 if "probes" not in res:
@@ -511,7 +704,7 @@ def run(args):
                 if lit is None:
                     lit = full_literal(wd, res, cfg["epsilon"])
                 lits.append(lit)
-                units.append(2 * len(wd["probes"]))
+                units.append(2 * len(wd["probes"]) + len(res.get("seqs", [])))
                 keep.append(wi)
             verdicts, info = run_case_shards(PROP, "Corr.C03", lits, shard_size=8, units=units, header_extra=HEADER,
                                              max_bytes=110_000)
@@ -547,6 +740,31 @@ def run(args):
                         all_cases.append({"lit": lit, "input": inp, "nontrivial": nontrivial,
                                           "witness_of": wd.get("witness_of"), "klass": pr.get("klass")})
                         verdict_list.append(ch)
+                for sq, r in zip(wd.get("seqs", []), res.get("seqs", [])):
+                    ch = verdicts[pos]
+                    pos += 1
+                    if ch == "." and hs != hashseeds[0]:
+                        skipped_ok += 1
+                        continue
+                    if ch == ".":
+                        inp = {"world": light, "seq": sq, "unit": "seq"}
+                    else:
+                        # the states the sequence uses, renumbered; a replay runs exactly this sequence
+                        used = sorted({sq["start"]} | {st["src"] for st in sq["steps"] if st["src"] is not None})
+                        ren = {j: i for i, j in enumerate(used)}
+                        sq1 = dict(sq, start=ren[sq["start"]], call=0,
+                                   steps=[dict(st, src=None if st["src"] is None else ren[st["src"]]) for st in sq["steps"]])
+                        one = {"domain_text": wd["domain_text"], "objects": wd["objects"], "states": [wd["states"][j] for j in used],
+                               "problem_texts": [wd["problem_texts"][j] for j in used], "probes": [], "seqs": [sq1],
+                               "stream": wd["stream"], "features": wd["features"], "witness_of": wd.get("witness_of"), "compact": False}
+                        inp = {"world": one, "unit": "seq", "hashseed": hs, "implementation": r}
+                    returned = sum(1 for o in r["steps"] if "value" in o.get("succ", {}))
+                    nontrivial = hs == hashseeds[0] and returned >= 2 and any(
+                        o.get("trace", {}).get(k, 0) > 0 for o in r["steps"]
+                        for k in ("when_fired", "when_not", "univ_fired", "univ_not", "numeric_applied"))
+                    all_cases.append({"lit": lit, "input": inp, "nontrivial": nontrivial, "witness_of": wd.get("witness_of"),
+                                      "klass": None})
+                    verdict_list.append(ch)
             if hs == hashseeds[0]:
                 for wd, res in zip(worlds, results):
                     stats["worlds"] += 1
@@ -573,6 +791,8 @@ def run(args):
                         if pr.get("perm") is not None:
                             orders_seen.add((len(r.get("order", [])), tuple(r.get("order", [])), tuple(r.get("uorder", []))))
                         stats["d40_class_probes"] += 1 if pr.get("d40_class") else 0
+                        stats["probes_quantifier_over_constant"] = stats.get("probes_quantifier_over_constant", 0) + \
+                            (1 if pr.get("qconst") else 0)
                         tr = r.get("trace")
                         if tr:
                             stats["when_groups_fired"] += tr["when_fired"]
@@ -587,6 +807,32 @@ def run(args):
                             stats["probes_with_numeric_applied"] += 1 if tr["numeric_applied"] else 0
                             stats["numeric_effects_applied"] += tr["numeric_applied"]
                             stats["discrete_effects_applied"] += tr["discrete_applied"]
+                    sqs = stats["sequences"]
+                    for sq, r in zip(wd.get("seqs", []), res.get("seqs", [])):
+                        sqs["total"] += 1
+                        sqs["by_kind"][sq["kind"]] = sqs["by_kind"].get(sq["kind"], 0) + 1
+                        st0 = wd["stream"].split(":")[0]
+                        sqs["by_stream"][st0] = sqs["by_stream"].get(st0, 0) + 1
+                        sqs["length"][str(len(sq["steps"]))] = sqs["length"].get(str(len(sq["steps"])), 0) + 1
+                        sqs["sequences_forced_order"] += 1 if sq.get("perm") is not None else 0
+                        executed, numeric_exec, prev_refused = 0, 0, False
+                        for st, o in zip(sq["steps"], r["steps"]):
+                            sqs["calls"] += 1
+                            ret = "value" in o.get("succ", {})
+                            sqs["calls_returned" if ret else "calls_refused_valueerror" if o.get("valerr") else "calls_raised_other"] += 1
+                            sqs["calls_on_previous_result" if st["src"] is None else "calls_on_fresh_state"] += 1
+                            tr = o.get("trace", {})
+                            if ret:
+                                sqs["executed_after_an_executed_call_of_the_same_operator"] += 1 if executed else 0
+                                sqs["refused_then_allowed"] += 1 if prev_refused else 0
+                                executed += 1
+                                numeric_exec += 1 if tr.get("numeric_applied") else 0
+                                sqs["calls_with_numeric_applied"] += 1 if tr.get("numeric_applied") else 0
+                                sqs["calls_with_conditional_or_universal_evaluated"] += 1 if any(
+                                    tr.get(k) for k in ("when_fired", "when_not", "univ_fired", "univ_not")) else 0
+                            prev_refused = bool(o.get("valerr"))
+                            sqs["returned_state_changed_afterwards"] += 1 if "late" in o else 0
+                        sqs["sequences_with_2+_executed_numeric_calls"] += 1 if numeric_exec >= 2 else 0
     stats["distinct_forced_orders"] = len(orders_seen)
     all_verdicts = "".join(verdict_list)
     decide(rep, PROP, "Corr.C03", all_cases, all_verdicts, info_total, explain_expr="explain (%s)", header_extra=HEADER,
